@@ -4,6 +4,7 @@ CONSTANTS
   Workers <- W3
   BadSig = {1}
   Undecodable = {}
+  OriFirst = TRUE
   ErrFirst = TRUE
-INVARIANTS ExecOrder FailedHasError SerialOutcome WaitGroupSane
+INVARIANTS ExecOrder FailedHasError SerialOutcome BytesReported WaitGroupSane
 PROPERTIES Termination ExecTerminates
